@@ -36,6 +36,10 @@ def freqAtSiso (fftK : Fft α) (ir : IR α) (fft B : Nat) (xf : Nat → α) (b p
 def freqSpecSiso (fftK : Fft α) (ir : IR α) (fft : Nat) (ps : List Nat) (B nb : Nat) (xf : Nat → α) : List α :=
   (List.range nb).flatMap (fun b => ps.zipIdx.map (fun pq => freqAtSiso fftK ir fft B xf b pq.1 pq.2))
 
+/-- the same SISO output addressed by the flat position `m = b·B + q` -/
+def freqAtSisoFlat (fftK : Fft α) (ir : IR α) (fft : Nat) (ps : List Nat) (xf : Nat → α) (m : Nat) : α :=
+  fftK (ir.denseAt 0 0 (m / ps.length)) fft (match ps[m % ps.length]? with | some p => p | none => 0) * xf m
+
 /-- MIMO frequency domain: `Σ_a FFT(dense taps (j,a) of sample b)[p] · x[a][b·B + q]` -/
 def freqAt (fftK : Fft α) (ir : IR α) (sw : Bool) (fft B nIn : Nat) (xf : Nat → Nat → α) (j b p q : Nat) : α :=
   ((List.range nIn).map (fun a =>
